@@ -78,6 +78,14 @@ def scen_die(rng):
             'cfg': {'die': True}, 'expect': 'PassBugError'}
 
 
+def scen_die_busy(rng):
+    """the pass run ends with a reported error (--die-on-pass-bug on an unaltered candidate) while later candidates are
+    inside slow tests that have children of their own"""
+    return {'name': 'die-while-others-run', 'tree': {'a.c': {'text': '// WASHANG WASFORK\nHANGLINE\nFORKLINE\nkeep1\nx\n'}}, 'test_cases': ['a.c'],
+            'predicate': 'grep -q keep1 a.c', 'groups': {'first': [], 'main': [{'name': 'UnalteredPass', 'arg': 'then-lines'}], 'last': []},
+            'N': rng.choice([3, 4]), 'timeout': 20, 'mode': 'pass', 'cfg': {'die': True}, 'expect': 'PassBugError'}
+
+
 def scen_error_pass(rng):
     return {'name': 'helper-error', 'tree': {'a.c': {'text': 'keep1\nx\n'}}, 'test_cases': ['a.c'], 'predicate': 'exit 0',
             'groups': {'first': [], 'main': [{'name': 'ErrorPass'}, {'name': 'LinePass'}], 'last': []}, 'N': 2, 'timeout': 5}
